@@ -54,7 +54,7 @@ def _native_playback(ks, module, test_src, test_name, timeout=900):
 def make(pid, ob, ks, obligations, spec):
     import run as R
     safe = re.sub(r"[^A-Za-z0-9_.-]", "_", ob["id"])
-    path = os.path.join(VERIF, "replay", "%s-%s.json" % (pid, safe))
+    path = os.path.join(os.environ.get("VERIF_REPLAY_DIR", os.path.join(VERIF, "replay")), "%s-%s.json" % (pid, safe))
     rec = {"property": pid, "obligation": ob["id"], "engine": ob["engine"], "kind": ob["kind"], "verifier_detail": ob.get("detail", []),
            "created": time.strftime("%Y-%m-%dT%H:%M:%SZ", time.gmtime()), "reproduced": False}
     harness = None
